@@ -16,11 +16,24 @@
   The liveness half with a filter is also false on the code as it is (finding C12-F4: a successor
   that is already in `deleted` is not pushed, `Env.dropDeleted = true`, which cuts the successor
   graph); the proposed one-line fix is modelled by `dropDeleted = false`.
-  Absence of duplicates and the liveness half are not proved (checked by oracle and correspondence).
+  The filter half is PROVED for heap search (any threshold) and bucket search on acyclic
+  context-free grammars, for the code after fix 53c3acb (`Env.dropDeleted = false`), for every fuel:
+    * C12_HS_filter_safe / C12_HS_bucket_filter_safe — with a filter installed every yielded program
+      is a member, is accepted, and the yielded programs are pairwise distinct (every prefix);
+    * C12_HS_filter_complete / C12_HS_bucket_filter_complete — once the generator has stopped, every
+      member all of whose sub-programs (itself included) the filter accepts — `HG.clean` — and whose
+      probability is above the threshold was yielded;
+    * C12_HS_filter_terminates / C12_HS_bucket_filter_terminates — with fuel at least
+      `HG.enoughFuelF` the generator stops after finitely many `next`;
+    * C12_HS_filter_full / C12_HS_bucket_filter_full — the three together.
+  The hypotheses (`HG.ProbHyp`, `HG.BucketHyp`) are Boolean checks on a literal grammar
+  (`HG.probHyp_of_checks`, `HG.bucketHyp_of_checks`); acyclicity is needed (findings C03-F3/C03-F4).
+  Not proved: the merge half (false, C12-F1), recursive grammars, the unambiguous-grammar machine.
 -/
 import PS.Model.Enum.HeapSearch
 import PS.Model.Enum.UHeapSearch
 import PS.Proofs.Enum.HeapSearch
+import PS.Proofs.Enum.GInst
 namespace PS.C12HS
 open PS PS.G
 
@@ -92,5 +105,134 @@ example : (take (Em fun p => decide (p ≠ zero)) 100 10 (Gen.new wmG) []).map (
     = some (2, true, false) := by
   decide +kernel
 end F1
+
+/-! ### the filter half on acyclic context-free grammars -/
+section Filter
+open PS.HS PS.HG
+variable {S : Type} [DecidableEq S]
+
+/-- **C12, safety with a filter (heap search, any threshold, every fuel, every prefix of the run)**:
+    the yielded programs are members of the grammar, are accepted by the filter and are pairwise distinct -/
+theorem C12_HS_filter_safe (E : Env S Unit Rat) (rank : NT S Unit → Nat) (t : Rat) (P : ProbHyp E rank t)
+    (fuel k : Nat) (g' : Gen S Unit Rat) (out : List Prog) (b : Bool)
+    (h : take E fuel k (Gen.new E.G) [] = some (g', out, b)) :
+    (∀ p ∈ out, contains E.G p = true) ∧ (∀ p ∈ out, E.filter p = true) ∧ out.Nodup := by
+  obtain ⟨a, b', c, _⟩ := prob_safe P fuel k g' out b h
+  exact ⟨fun p hp => by rw [contains_eq_gen]; exact a p hp, c, b'⟩
+
+/-- **C12, completeness relative to the filter (heap search)**: once the generator has stopped, every
+    member all of whose sub-programs are accepted (`clean`) and whose probability is above the threshold
+    (no condition when the threshold is 0) was yielded -/
+theorem C12_HS_filter_complete (E : Env S Unit Rat) (rank : NT S Unit → Nat) (t : Rat) (P : ProbHyp E rank t)
+    (fuel k : Nat) (g' : Gen S Unit Rat) (out : List Prog)
+    (h : take E fuel k (Gen.new E.G) [] = some (g', out, true)) (p : Prog)
+    (hp : contains E.G p = true) (hcl : clean E.filter p = true)
+    (hthr : t < G.prob E.G E.W p E.G.start ∨ t = 0) : p ∈ out :=
+  prob_stop_complete P fuel k g' out h p (by rw [← contains_eq_gen]; exact hp) hcl hthr
+
+/-- **C12, termination with a filter (heap search)** -/
+theorem C12_HS_filter_terminates (E : Env S Unit Rat) (rank : NT S Unit → Nat) (t : Rat) (P : ProbHyp E rank t)
+    (hclosed : HG.Closed E.G) (hstart : E.G.start ∈ AList.keys E.G.rules) (fuel : Nat)
+    (hfuel : enoughFuelF E.G rank ≤ fuel) :
+    ∃ k g' out, take E fuel k (Gen.new E.G) [] = some (g', out, true) := prob_total P hclosed hstart fuel hfuel
+
+/-- **C12, THE FILTER HALF FOR HEAP SEARCH ON ACYCLIC CONTEXT-FREE GRAMMARS**: with enough fuel the
+    generator stops; its output is duplicate-free, contains only accepted members, and contains every
+    member above the threshold all of whose sub-programs are accepted -/
+theorem C12_HS_filter_full (E : Env S Unit Rat) (rank : NT S Unit → Nat) (t : Rat) (P : ProbHyp E rank t)
+    (hclosed : HG.Closed E.G) (hstart : E.G.start ∈ AList.keys E.G.rules) (fuel : Nat)
+    (hfuel : enoughFuelF E.G rank ≤ fuel) :
+    ∃ k g' out, take E fuel k (Gen.new E.G) [] = some (g', out, true) ∧ out.Nodup ∧
+      (∀ p ∈ out, contains E.G p = true ∧ E.filter p = true) ∧
+      (∀ p, contains E.G p = true → clean E.filter p = true → (t < G.prob E.G E.W p E.G.start ∨ t = 0) → p ∈ out) := by
+  obtain ⟨k, g', out, h⟩ := C12_HS_filter_terminates E rank t P hclosed hstart fuel hfuel
+  obtain ⟨a, b, c⟩ := C12_HS_filter_safe E rank t P fuel k g' out true h
+  exact ⟨k, g', out, h, c, fun p hp => ⟨a p hp, b p hp⟩,
+    fun p hp hcl hthr => C12_HS_filter_complete E rank t P fuel k g' out h p hp hcl hthr⟩
+
+/-- the same for bucket search: safety -/
+theorem C12_HS_bucket_filter_safe (E : Env S Unit Bucket) (rank : NT S Unit → Nat) (size : Nat)
+    (B : BucketHyp E rank size) (fuel k : Nat) (g' : Gen S Unit Bucket) (out : List Prog) (b : Bool)
+    (h : take E fuel k (Gen.new E.G) [] = some (g', out, b)) :
+    (∀ p ∈ out, contains E.G p = true) ∧ (∀ p ∈ out, E.filter p = true) ∧ out.Nodup := by
+  obtain ⟨a, b', c, _⟩ := bucket_safe B fuel k g' out b h
+  exact ⟨fun p hp => by rw [contains_eq_gen]; exact a p hp, c, b'⟩
+
+/-- bucket search: completeness relative to the filter -/
+theorem C12_HS_bucket_filter_complete (E : Env S Unit Bucket) (rank : NT S Unit → Nat) (size : Nat)
+    (B : BucketHyp E rank size) (fuel k : Nat) (g' : Gen S Unit Bucket) (out : List Prog)
+    (h : take E fuel k (Gen.new E.G) [] = some (g', out, true)) (p : Prog)
+    (hp : contains E.G p = true) (hcl : clean E.filter p = true) : p ∈ out :=
+  bucket_stop_complete B fuel k g' out h p (by rw [← contains_eq_gen]; exact hp) hcl
+
+/-- bucket search: termination with a filter -/
+theorem C12_HS_bucket_filter_terminates (E : Env S Unit Bucket) (rank : NT S Unit → Nat) (size : Nat)
+    (B : BucketHyp E rank size) (hclosed : HG.Closed E.G) (hstart : E.G.start ∈ AList.keys E.G.rules) (fuel : Nat)
+    (hfuel : enoughFuelF E.G rank ≤ fuel) :
+    ∃ k g' out, take E fuel k (Gen.new E.G) [] = some (g', out, true) := bucket_total B hclosed hstart fuel hfuel
+
+/-- **C12, the filter half for bucket search on acyclic context-free grammars** -/
+theorem C12_HS_bucket_filter_full (E : Env S Unit Bucket) (rank : NT S Unit → Nat) (size : Nat)
+    (B : BucketHyp E rank size) (hclosed : HG.Closed E.G) (hstart : E.G.start ∈ AList.keys E.G.rules) (fuel : Nat)
+    (hfuel : enoughFuelF E.G rank ≤ fuel) :
+    ∃ k g' out, take E fuel k (Gen.new E.G) [] = some (g', out, true) ∧ out.Nodup ∧
+      (∀ p ∈ out, contains E.G p = true ∧ E.filter p = true) ∧
+      (∀ p, contains E.G p = true → clean E.filter p = true → p ∈ out) := by
+  obtain ⟨k, g', out, h⟩ := C12_HS_bucket_filter_terminates E rank size B hclosed hstart fuel hfuel
+  obtain ⟨a, b, c⟩ := C12_HS_bucket_filter_safe E rank size B fuel k g' out true h
+  exact ⟨k, g', out, h, c, fun p hp => ⟨a p hp, b p hp⟩,
+    fun p hp hcl => C12_HS_bucket_filter_complete E rank size B fuel k g' out h p hp hcl⟩
+
+/-! non-vacuity: `S0 → 1 | + S1 S1`, `S1 → 1 | x`, the filter rejects the leaf `1` -/
+def fInt : Ty := .base "int"
+def fOne : Sym := Sym.prim "1" fInt
+def fX : Sym := Sym.var 0 fInt
+def fPlus : Sym := Sym.prim "+" (.arrow fInt (.arrow fInt fInt))
+def fG : TT Nat Unit := ⟨(fInt, (0, ())), [((fInt, (0, ())), [(fOne, ([], ())), (fPlus, ([(fInt, 1), (fInt, 1)], ()))]),
+                                          ((fInt, (1, ())), [(fOne, ([], ())), (fX, ([], ()))])]⟩
+def fW : AList (NT Nat Unit) (AList Sym Rat) :=
+  [((fInt, (0, ())), [(fOne, 1/2), (fPlus, 1/2)]), ((fInt, (1, ())), [(fOne, 1/4), (fX, 3/4)])]
+def fRank (nt : NT Nat Unit) : Nat := 1 - nt.2.1
+def fFilter (p : Prog) : Bool := decide (p ≠ .node fOne [])
+/-- heap search, threshold 0, filter "is not the leaf `1`", the code after fix 53c3acb -/
+def fE : Env Nat Unit Rat := { G := fG, W := fW, ops := probOps 0, filter := fFilter, dropDeleted := false }
+/-- bucket search (size 3) with the same filter -/
+def fB : Env Nat Unit Bucket := { G := fG, W := fW, ops := bucketOps 3, filter := fFilter, dropDeleted := false }
+
+theorem fE_hyp : ProbHyp fE fRank 0 :=
+  probHyp_of_checks fE fRank 0 rfl (by decide) (by decide +kernel) (by decide) (by decide) (by decide) (by decide)
+    (by decide +kernel) rfl
+
+theorem fB_hyp : BucketHyp fB fRank 3 :=
+  bucketHyp_of_checks fB fRank 3 rfl (by decide) (by decide) (by decide) (by decide) (by decide +kernel) rfl
+
+theorem fG_closed : HG.Closed fG := closed_of_allG fG (by decide)
+
+/-- enough fuel is 2 * (2 + 2 + 5 + 5) = 28 -/
+example : ∃ k g' out, take fE 28 k (Gen.new fG) [] = some (g', out, true) ∧ out.Nodup ∧
+    (∀ p ∈ out, contains fG p = true ∧ fFilter p = true) ∧
+    (∀ p, contains fG p = true → clean fFilter p = true → ((0 : Rat) < G.prob fG fW p fG.start ∨ (0 : Rat) = 0) → p ∈ out) :=
+  C12_HS_filter_full fE fRank 0 fE_hyp fG_closed (by decide) 28 (by decide +kernel)
+
+example : ∃ k g' out, take fB 28 k (Gen.new fG) [] = some (g', out, true) ∧ out.Nodup ∧
+    (∀ p ∈ out, contains fG p = true ∧ fFilter p = true) ∧
+    (∀ p, contains fG p = true → clean fFilter p = true → p ∈ out) :=
+  C12_HS_bucket_filter_full fB fRank 3 fB_hyp fG_closed (by decide) 28 (by decide +kernel)
+
+/-- what the machines do on the example: only `(+ x x)`, the one member all of whose sub-programs
+    are accepted, is yielded (the rejected leaf enters `deleted` and is skipped in the heap of the
+    argument non-terminal as well), then the generator stops -/
+example : (take fE 28 10 (Gen.new fG) []).map (fun r => (r.2.1, r.2.2)) =
+    some ([.node fPlus [.node fX [], .node fX []]], true) := by
+  decide +kernel
+/-- bucket search on the same input yields the 4 accepted members: the argument non-terminal had
+    popped the leaf `1` (bucket `[0,0,1]`, before `x`, bucket `[1,0,0]`) before it was rejected, so the
+    programs that contain it are still built — the statement is an inclusion, not an equality -/
+example : (take fB 28 10 (Gen.new fG) []).map (fun r => (r.2.1.length, r.2.2, r.2.1.all fFilter)) =
+    some (4, true, true) := by
+  decide +kernel
+/-- a clean member: `(+ x x)` -/
+example : clean fFilter (.node fPlus [.node fX [], .node fX []]) = true := by decide +kernel
+end Filter
 
 end PS.C12HS
